@@ -123,15 +123,34 @@ def failing_coq_item(log):
     return "unknown"
 
 
-def scan_forbidden():
-    bad = []
-    for rel in coq_sources():
+def dep_closure(roots):
+    """.v files (relative to coq/) reachable from `roots` through `From Cddl Require ... X.Y` lines."""
+    seen, todo = [], list(roots)
+    while todo:
+        rel = todo.pop()
+        if rel in seen or not os.path.exists(os.path.join(COQ, rel)):
+            continue
+        seen.append(rel)
         txt = open(os.path.join(COQ, rel)).read()
-        # strip comments (non-nested is enough for our sources; nested handled by loop)
+        for m in re.finditer(r"From\s+Cddl\s+Require\s+(?:Import\s+|Export\s+)?(.*?)\.(?:\s|$)", txt, flags=re.S):
+            for mod in m.group(1).split():
+                todo.append("theories/" + mod.replace(".", "/") + ".v")
+        for m in re.finditer(r"(?<!Cddl )Require\s+(?:Import\s+|Export\s+)?(.*?)\.(?:\s|$)", txt, flags=re.S):
+            for mod in m.group(1).split():
+                if mod.startswith("Cddl."):
+                    todo.append("theories/" + mod[len("Cddl."):].replace(".", "/") + ".v")
+    return sorted(seen)
+
+
+def scan_forbidden(files=None):
+    bad = []
+    for rel in (files if files is not None else coq_sources()):
+        txt = open(os.path.join(COQ, rel)).read()
+        # strip comments (innermost first, repeated: handles nesting)
         prev = None
         while prev != txt:
             prev = txt
-            txt = re.sub(r"\(\*[^()]*?\*\)", " ", txt, flags=re.S)
+            txt = re.sub(r"\(\*(?:(?!\(\*|\*\)).)*?\*\)", lambda m: "\n" * m.group(0).count("\n"), txt, flags=re.S)
         for i, line in enumerate(txt.split("\n")):
             if FORBIDDEN.search(line):
                 bad.append("%s:%d: %s" % (rel, i + 1, line.strip()[:100]))
@@ -157,11 +176,12 @@ def statement_hashes(prop_file):
     return out
 
 
-def audit(prop_id, prop_file):
+def audit(prop_id, prop_file, extra_roots=()):
     """Print Assumptions under every property theorem, forbidden-vernacular scan,
     pinned statements. Returns (n_theorems, problems, assumptions_report)."""
     problems = []
-    bad = scan_forbidden()
+    closure = dep_closure([prop_file] + list(extra_roots))
+    bad = scan_forbidden(closure)
     if bad:
         problems.append("forbidden vernacular: " + "; ".join(bad[:5]))
     thms = props_theorems(prop_file)
@@ -169,7 +189,7 @@ def audit(prop_id, prop_file):
         problems.append("no theorems in " + prop_file)
     # every theorem in Props must be closed by `exact`
     txt = open(os.path.join(COQ, prop_file)).read()
-    pinned_path = os.path.join(COQ, "pinned.json")
+    pinned_path = os.path.join(COQ, "pinned", prop_id + ".json")
     pinned = json.load(open(pinned_path)) if os.path.exists(pinned_path) else {}
     hashes = statement_hashes(prop_file)
     for t in thms:
@@ -213,10 +233,9 @@ def audit(prop_id, prop_file):
 
 
 def pin(prop_id, prop_file):
-    pinned_path = os.path.join(COQ, "pinned.json")
-    pinned = json.load(open(pinned_path)) if os.path.exists(pinned_path) else {}
-    for k in [k for k in pinned if k.startswith(prop_id + ".")]:
-        del pinned[k]
+    os.makedirs(os.path.join(COQ, "pinned"), exist_ok=True)
+    pinned_path = os.path.join(COQ, "pinned", prop_id + ".json")
+    pinned = {}
     for t, h in statement_hashes(prop_file).items():
         pinned["%s.%s" % (prop_id, t)] = h
     json.dump(pinned, open(pinned_path, "w"), indent=1, sort_keys=True)
@@ -227,21 +246,21 @@ def pin(prop_id, prop_file):
 # Rust harness and OCaml oracles
 # ---------------------------------------------------------------------------
 
-def build_harness(profile="release", rustflags=None):
-    """cargo build of /verif/harness against /repo's working tree."""
+def build_harness(bin="c11", profile="release", rustflags=None):
+    """cargo build of one driver binary of /verif/harness (src/bin/<bin>.rs) against /repo's working tree."""
     h = os.path.join(VERIF, "harness")
     with Lock("cargo"):
         lock_src = os.path.join(REPO, "Cargo.lock")
         if os.path.exists(lock_src):
             write_if_changed(os.path.join(h, "Cargo.lock"), open(lock_src).read())
-        cmd = ["cargo", "build", "--offline"] + (["--release"] if profile == "release" else [])
+        cmd = ["cargo", "build", "--offline", "--bin", bin] + (["--release"] if profile == "release" else [])
         env = {"CARGO_TARGET_DIR": TARGET}
         if rustflags:
             env["RUSTFLAGS"] = rustflags
         rc, out = sh(cmd, cwd=h, timeout=1800, env=env)
         if rc != 0:
             raise RuntimeError("harness build failed:\n" + out[-4000:])
-    return os.path.join(TARGET, profile if profile == "release" else "debug", "impl_driver")
+    return os.path.join(TARGET, profile if profile == "release" else "debug", bin)
 
 
 def build_cli(profile="release"):
@@ -417,7 +436,8 @@ def prove(res, prop_id, prop_file, extra_targets=()):
         res.coverage["discharged"] = 0
         res.proof_broken = "Coq build failed at %s: %s" % (item, log[-600:])
         return False
-    n, problems, report = audit(prop_id, prop_file)
+    n, problems, report = audit(prop_id, prop_file, [t[:-3] + ".v" for t in extra_targets])
+    res.coverage["files_in_closure"] = dep_closure([prop_file] + [t[:-3] + ".v" for t in extra_targets])
     res.coverage["obligations"] = n
     res.coverage["assumptions_report"] = report
     res.coverage["theorems"] = sorted(report.keys())
